@@ -200,7 +200,8 @@ func checkC18(c *Ctx, r *Report) {
 					if f.Decl.Recv != nil && len(f.Decl.Recv.List) == 1 && len(f.Decl.Recv.List[0].Names) == 1 {
 						recvObj = info.Defs[f.Decl.Recv.List[0].Names[0]]
 					}
-					ast.Inspect(call.Args[1], func(m ast.Node) bool {
+					nameArg := newCoverFn(f).resolve(call.Args[1]) // the name may sit in a local defined once
+					ast.Inspect(nameArg, func(m ast.Node) bool {
 						if se, isS := m.(*ast.SelectorExpr); isS && fieldNamed(info, se, "StateNumber") && recvObj != nil && identObj(info, se.X) == recvObj {
 							ok = true
 						}
